@@ -76,3 +76,69 @@ CHECKS = {
         "assumptions": ["source model: delivers k bytes (k symbolic, solver case-split over the whole stream) then a distinct error value, alone or together with the last bytes, behind a 16-byte bufio.Reader"],
     },
 }
+
+
+def wr(harness, picks, params, labels, covers=(), tiers=("quick", "thorough"), thorough=None, validate_quick=25):
+    r = {"pkg": DEFLATE, "harness": harness, "picks": dict(picks), "params": dict(params), "tiers": list(tiers), "labels": labels, "maxconc": 1500,
+         "covers": list(covers), "validate_quick": validate_quick, "validate_thorough": 300}
+    if thorough:
+        r["thorough"] = thorough
+    return r
+
+
+def wr_seq(labels):
+    return [wr("VerifWrSeq", {"setting": 5}, {"K": 3, "W": 16}, labels, ["close", "flush"], thorough={"K": 4}),
+            wr("VerifWrSeq", {"setting": 6}, {"K": 3, "W": 16}, labels, ["close", "flush"], thorough={"K": 4}),
+            wr("VerifWrSeq", {"setting": 0}, {"K": 2, "W": 16}, labels, ["close", "flush"], thorough={"K": 3}),
+            wr("VerifWrSeq", {"setting": 3}, {"K": 2, "W": 16}, labels, ["close", "flush"], thorough={"K": 3}),
+            wr("VerifWrSeq", {"setting": 1}, {"K": 2, "W": 16}, labels, ["close", "flush"], tiers=["thorough"]),
+            wr("VerifWrSeq", {"setting": 4}, {"K": 2, "W": 16}, labels, ["close", "flush"], tiers=["thorough"])]
+
+
+def kernels(labels, which):
+    runs = []
+    if "dist" in which:
+        runs.append(wr("VerifKDist", {}, {}, labels, ["ran"]))
+    if "bitbuf" in which:
+        runs += [wr("VerifKBitBuf", {"fn": f}, {}, labels, ["ran"]) for f in (0, 1)]
+    if "marker" in which:
+        runs += [wr("VerifKBitBuf", {"fn": f}, {}, labels, ["ran"]) for f in (2, 3)]
+    if "enc" in which:
+        runs += [wr("VerifKEncToken", {"match": m, "lc": lc, "dc": dc, "idx": ix}, {}, labels, ["ran"])
+                 for (m, lc, dc, ix) in [(1, 3, 2, 1), (1, 0, 0, 2), (0, 2, 0, 0), (1, 1, 1, 0)]]
+        runs += [wr("VerifKEncToken", {"match": m, "lc": lc, "dc": dc, "idx": ix}, {}, labels, ["ran"], tiers=["thorough"])
+                 for m in (0, 1) for lc in range(4) for dc in range(3) for ix in range(3)]
+    if "lz77" in which:
+        runs += [wr("VerifKLz77Step", {"level": lv, "window": wn, "flush": fl}, {"B": b, "OFF": off}, labels, ["literal", "match"], thorough={"B": b + 8})
+                 for (lv, wn, fl, b, off) in [(0, 2, 0, 24, 8), (1, 2, 1, 24, 9), (0, 0, 0, 24, 10), (1, 1, 1, 28, 10), (0, 1, 1, 24, 3)]]
+    return runs
+
+
+CHECKS.update({
+    "C16": {"level": "model_checking", "runs": wr_seq(["C16:"]) + [wr("VerifStdAutomaton", {}, {"K": 3}, ["REF:"])],
+            "assumptions": ["operation sequences of length K over {Write(0), Write(5), Write(> internal buffer), Flush, Close, Reset}: each operation is a symbolic value case-split by the solver; data is a fixed pseudo-random pattern (the property is about call sequences, not content)",
+                            "expected error-ness per call = automaton open/closed of compress/flate's Writer, itself checked against the real stdlib Writer executed by the engine (VerifStdAutomaton)",
+                            "settings 5/6 use the internal constructor NewDynCompressor with window W=16: the same parametric Accumulate/compress code at a size where filling the buffer costs 300 bytes instead of 8K/64K"]},
+    "C10": {"level": "model_checking", "runs": wr_seq(["C10:"]) + kernels(["C10:"], ["marker"]),
+            "assumptions": ["flush decoding oracle: reference inflater must return all data written so far, then need-more-input exactly at the end of the emitted bytes",
+                            "kernel lemmas: flushLastByte / writeEmptyBlock from an arbitrary accumulator (bitLen 0..64 symbolic)"]},
+    "C01": {"level": "model_checking", "runs": kernels(["C01:"], ["dist", "bitbuf", "enc", "lz77"]) + wr_seq(["C01:"]),
+            "assumptions": ["C01 is decided as kernel lemmas on the real code from symbolic pre-states (one lz77 step, token packing, bit packing) plus bounded operation sequences with concrete data decoded by the reference inflater; the composition argument (DESIGN.md C01) is not mechanised",
+                            "assembly encoders / LZ77 kernels (acceleration levels 1..4) are outside the encoder; portable Go paths (noasmtest) are what is executed"]},
+    "C19": {"level": "model_checking", "runs": kernels(["C19:"], ["dist", "lz77"]) + [r for r in wr_seq(["C19:"]) if r["picks"]["setting"] in (3, 4, 5)],
+            "assumptions": ["one lz77 step from an arbitrary state: D <= historySize for historySize in {8, 4096, 32768}; positions may have wrapped (processed up to 2^18)"]},
+    "C14": {"level": "model_checking",
+            "runs": [wr("VerifWrFail", {"setting": st}, {"K": 3, "W": 16, "KMAX": km}, ["C14:"], ["failure-reported", "op-after-failure"], thorough={"K": 4})
+                     for (st, km) in [(5, 6), (6, 6), (0, 4), (3, 4)]],
+            "assumptions": ["destination model: fails at its k-th call (k symbolic) with a distinct error value and keeps failing"]},
+    "C12": {"level": "model_checking",
+            "runs": [wr("VerifWrReset", {"setting": st, "oldfails": of}, {"K1": 2, "K2": 2, "W": 16}, ["C12:"], ["compared"], thorough={"K1": 3})
+                     for st in (5, 6, 0) for of in (0, 1)],
+            "assumptions": ["histories h1 (K1 operations) and h2 (K2 operations) are symbolic operation sequences case-split by the solver; content fixed"]},
+    "C09": {"level": "model_checking",
+            "runs": [wr("VerifWrPartition", {"setting": st}, {"W": 16, "L": L, "F": F}, ["C09:"], ["compared"])
+                     for (st, L, F) in [(5, 700, 0), (6, 700, 0), (5, 700, 40), (5, 700, 150), (6, 700, 289)]] +
+                    [wr("VerifWrPartition", {"setting": 0}, {"W": 16, "L": 70000, "F": 0}, ["C09:"], ["compared"], tiers=["thorough"])],
+            "assumptions": ["relational: the same concrete data with the same Flush position, written in one piece vs split at a symbolic point p (every p in [F, L], case-split by the solver) with an extra zero-length Write",
+                            "window W=16 instances of the parametric dynCompressor (buffer 2W+261 bytes); W in {4096, 32768} is not explored for every split point"]},
+})
